@@ -23,6 +23,7 @@ class BatchDomain(TaintDomain):
     def __init__(self):
         self.sites = {}
         self.branches = []
+        self.state_stores = []
 
     def src_arg(self, func, pname):
         return {"IN"}
@@ -77,6 +78,38 @@ class BatchDomain(TaintDomain):
         labels = [l for l in all_ann(self, test_av) if isinstance(l, tuple) and l[0] == "BRED"]
         if labels:
             self.branches.append((interp.frame.func, node, labels))
+
+    # a batch statistic written into the module's own tensors / attributes in evaluation mode:
+    # every later read of that state (this call's remaining statements included) makes a row's
+    # result depend on the other rows of the batch that was reduced
+    def _state_store(self, interp, chain, value, node):
+        labels = [l for l in all_ann(self, value) if isinstance(l, tuple) and l[0] == "BRED"]
+        if labels and chain and chain.startswith("self."):
+            self.state_stores.append((interp.frame.func, node, chain, labels))
+
+    def on_write(self, interp, how, target, value, node):
+        if how in ("data", "attr", "subscript"):
+            for t in getattr(node, "targets", [getattr(node, "target", None)]):
+                base = t
+                while isinstance(base, ast.Subscript):
+                    base = base.value
+                if isinstance(base, ast.Attribute):
+                    self._state_store(interp, attr_chain(base), value, node)
+        elif how.startswith("method:") and isinstance(node, ast.Call):
+            recv = node.func.value if isinstance(node.func, ast.Attribute) else (node.args[0] if node.args else None)
+            if isinstance(node.func, ast.Attribute) and isinstance(node.func.value, ast.Name) and node.func.value.id in ("torch", "F") and node.args:
+                recv = node.args[0]
+            while isinstance(recv, ast.Subscript):
+                recv = recv.value
+            if isinstance(recv, ast.Attribute):
+                self._state_store(interp, attr_chain(recv), value, node)
+
+    def on_attr_store(self, interp, obj, attr, value, node):
+        if interp.frame.func.name == "__init__":
+            return
+        for t in getattr(node, "targets", [getattr(node, "target", None)]):
+            if isinstance(t, ast.Attribute):
+                self._state_store(interp, attr_chain(t), value, node)
 
 
 GIVEN_ROWS = {
@@ -190,6 +223,16 @@ def reduce_rule(ctx):
             res.ok("%s:%s batch-wide test `%s` only as %s" % (fi.module.relpath, fi.qualname, norm_text(node.test)[:60], why))
         else:
             res.fail(Finding("BM-REDUCE", fi.module, fi.qualname, node, "control flow that changes what is computed for every row depends on a reduction over the whole batch"))
+    seen_st = set()
+    for fi, node, chain, labels in dom.state_stores:
+        key = (fi.qualname, chain, norm_text(stmt_of(node) or node))
+        if key in seen_st:
+            continue
+        seen_st.add(key)
+        for l in labels:
+            flagged.add(l)
+        ops = ", ".join(sorted({dom.sites[l][2] for l in labels}))
+        res.fail(Finding("BM-REDUCE", fi.module, fi.qualname, stmt_of(node) or node, "a reduction over the batch (%s) of a row-dependent tensor is written into the module state `%s` in evaluation mode: what is computed for a row then depends on the other rows of the batch the state was set from" % (ops, chain)))
     for site, (fi, node, op) in sorted(dom.sites.items(), key=str):
         if site not in flagged:
             res.ok("batch-wide reduction `%s` in %s reaches no result" % (site[3][:60], site[2]))
@@ -317,72 +360,98 @@ def _perm_of(call):
     return None, None
 
 
+ENTRY_LIKE = ("forward", "inverse", "_coupling_transform_forward", "_coupling_transform_inverse", "_coupling_transform", "_lu_forward_inverse", "_elementwise_forward", "_elementwise_inverse", "_elementwise")
+
+
+def rows_findings(p, res=None):
+    """BM-ROWS on the axis-layout algebra (nfstatic/axes.py): every image code path that
+    permutes 4 / 5 axes is evaluated on its expanded return expression."""
+    from ..axes import AxisEval, Mismatch, Unknown, image_env, show
+    from ..symexp import paths_of, uwalk
+
+    findings = []
+    n = 0
+    funcs = set()
+    env0 = image_env()
+    for fi in p.all_functions():
+        if not fi.module.name.startswith("nflows.transforms") or ".UMNN" in fi.module.name:
+            continue
+        if not any(isinstance(x, ast.Call) and isinstance(x.func, ast.Attribute) and x.func.attr == "permute" for x in ast.walk(fi.node)) and not any(
+            isinstance(x, ast.Call) and isinstance(x.func, ast.Attribute) and x.func.attr in ("reshape", "view") and len(x.args) == 4 for x in ast.walk(fi.node)
+        ):
+            # cheap pre-filter; helpers are inlined into their callers by the expansion
+            if not any(isinstance(x, ast.Call) and isinstance(x.func, ast.Attribute) and isinstance(x.func.value, ast.Name) and x.func.value.id in ("self", "cls") and x.func.attr.startswith("_") for x in ast.walk(fi.node)):
+                continue
+        params = [a for a, _ in fi.params()]
+        if "inputs" not in params:
+            continue
+        try:
+            paths = paths_of(fi.node, {"self.training": False})
+        except AnalysisIncomplete:
+            continue
+        for path in paths:
+            if path.kind != "return" or path.ret is None:
+                continue
+            perms = [x for x in uwalk(path.ret) if isinstance(x, ast.Call) and isinstance(x.func, ast.Attribute) and x.func.attr == "permute" and len(x.args) in (4, 5) and all(const_number(a) is not None for a in x.args)]
+            if not perms:
+                continue
+            # the 2-D branch of a rank dispatch is not an image path
+            if any((norm_text(raw) in ("len(inputs.shape) == 2", "inputs.dim() == 2", "inputs.ndim == 2") and pol) or (norm_text(raw) in ("len(inputs.shape) == 4", "inputs.dim() == 4", "inputs.ndim == 4") and not pol) for _et, raw, pol in path.conds):
+                continue
+            elts = path.ret.elts if isinstance(path.ret, ast.Tuple) else [path.ret]
+            ev = AxisEval(env0)
+            label = "%s [%s]" % (fi.qualname, ", ".join(("" if pol else "not ") + norm_text(raw)[:30] for _et, raw, pol in path.conds) or "-")
+            lays = []
+            bad = False
+            for el in elts:
+                try:
+                    lays.append(ev.ev(el))
+                except Mismatch as m:
+                    findings.append(Finding("BM-ROWS", fi.module, fi.qualname, path.ret_node, "%s (image code path of %s)" % (m.msg, fi.qualname)))
+                    bad = True
+                    break
+                except Unknown as u:
+                    lays.append(None)
+            funcs.add(fi.qualname)
+            if bad:
+                n += 1
+                continue
+            for call, argl in ev.row_calls:
+                for lay in argl:
+                    if lay and lay[0] and lay[0][0][0] != "B" and any(a[0] == "B" for g in lay for a in g):
+                        findings.append(Finding("BM-ROWS", fi.module, fi.qualname, path.ret_node, "the rows handed to `%s` are laid out as %s: the batch axis is not the outermost one of the merged row axis, so consecutive rows belong to different batch items and the per-row computation (and its log-det, summed per item afterwards) mixes items" % (norm_text(call.func)[:40], show(lay))))
+                        bad = True
+            if fi.name in ENTRY_LIKE and len(elts) == 2:
+                out_l, ld_l = lays
+                if out_l is None:
+                    if res is not None:
+                        res.undecide(label, "cannot follow the layout of the returned outputs")
+                    continue
+                if out_l != env0["inputs"] and not bad:
+                    findings.append(Finding("BM-ROWS", fi.module, fi.qualname, path.ret_node, "the outputs of %s are returned laid out as %s, not as the inputs' [B, C, H, W]: the merge of pixels into rows is not undone (values sit at other pixels / channels / items)" % (fi.qualname, show(out_l))))
+                    bad = True
+                if ld_l is not None and ld_l != (env0["inputs"][0],) and not bad:
+                    findings.append(Finding("BM-ROWS", fi.module, fi.qualname, path.ret_node, "the log-abs-det of %s is returned laid out as %s: it must be one number per batch item [B]" % (fi.qualname, show(ld_l))))
+                    bad = True
+            n += 1
+            if not bad and res is not None:
+                res.ok("%s: %d permute(s), %d per-row call(s); outputs %s, log-det %s" % (label, len(perms), len(ev.row_calls), show(lays[0]) if lays and lays[0] is not None else "?", show(lays[1]) if len(lays) > 1 and lays[1] is not None else "?"))
+    return findings, len(funcs)
+
+
 def rows_rule(ctx):
     p = ctx.p
-    res = RuleResult("BM-ROWS", "image code paths: a permute+reshape that merges the batch axis with pixels is undone by the matching reshape+inverse permute; no reshape puts a non-batch size first")
-    n = 0
-    for fi in p.all_functions():
-        if not fi.module.name.startswith("nflows.transforms"):
+    res = RuleResult("BM-ROWS", "image code paths: every permute / reshape keeps the axes' memory order consistent (a reshape never stands in for a permute), rows handed to per-row code have the batch axis outermost, outputs come back as [B, C, H, W] and the log-det as [B]")
+    seen = set()
+    findings, n = rows_findings(p, res)
+    for f in findings:
+        key = (f.qualname if hasattr(f, "qualname") else "", f.message)
+        if key in seen:
             continue
-        # names unpacked from a 4-D shape: b, c, h, w = inputs.shape
-        dims = None
-        for node in ast.walk(fi.node):
-            if isinstance(node, ast.Assign) and isinstance(node.targets[0], ast.Tuple) and len(node.targets[0].elts) == 4 and norm_text(node.value) in ("inputs.shape", "inputs.size()"):
-                names = [e.id if isinstance(e, ast.Name) else None for e in node.targets[0].elts]
-                if all(names):
-                    dims = names
-        if dims is None:
-            continue
-        merges = []  # (perm, reshape call)
-        splits = []  # (reshape dims, perm)
-        for node in ast.walk(fi.node):
-            if isinstance(node, ast.Call) and isinstance(node.func, ast.Attribute) and node.func.attr in ("reshape", "view"):
-                perm, src = _perm_of(node.func.value)
-                if perm is not None and len(perm) == 4:
-                    merges.append((perm, node))
-            perm, src = _perm_of(node)
-            if perm is not None and len(perm) == 4 and isinstance(src, ast.Call) and isinstance(src.func, ast.Attribute) and src.func.attr in ("reshape", "view") and len(src.args) == 4:
-                splits.append(([norm_text(a) for a in src.args], perm, node))
-        for perm, node in merges:
-            n += 1
-            if perm[0] != 0:
-                res.fail(Finding("BM-ROWS", fi.module, fi.qualname, node, "permute%s moves the batch axis before merging: rows of different items are interleaved" % (tuple(perm),)))
-                continue
-            # merged leading product must start with the batch size (b*h*w) or be -1
-            a0 = node.args[0] if node.args else None
-            t0 = norm_text(a0) if a0 is not None else ""
-            lead = [dims[i] for i in perm]
-            if t0 == "-1" or t0.replace(" ", "").startswith(lead[0]):
-                res.ok("%s: %s keeps whole items contiguous" % (fi.qualname, norm_text(node)[:60]))
-            else:
-                res.fail(Finding("BM-ROWS", fi.module, fi.qualname, node, "reshape after permute does not start with the batch size"))
-        # every reshape back to the four named image dims, in a function that merged pixels
-        # into the batch, must list them in merged order and be followed by the inverse permute
-        if merges:
-            split_nodes = {id(sp[2].func.value): sp for sp in splits}
-            for node in ast.walk(fi.node):
-                if not (isinstance(node, ast.Call) and isinstance(node.func, ast.Attribute) and node.func.attr in ("reshape", "view") and len(node.args) == 4):
-                    continue
-                rdims = [norm_text(a) for a in node.args]
-                if sorted(d.upper() for d in rdims) != sorted(d.upper() for d in dims):
-                    continue
-                if _perm_of(node.func.value)[0] is not None:
-                    continue  # that is a merge-side call
-                n += 1
-                sp = split_nodes.get(id(node))
-                okp = False
-                for mperm, _m in merges:
-                    want = [dims[i].upper() for i in mperm]
-                    inv = [mperm.index(i) for i in range(4)]
-                    if [d.upper() for d in rdims] == want and sp is not None and sp[1] == inv:
-                        okp = True
-                if okp:
-                    res.ok("%s: %s + permute undoes the merge" % (fi.qualname, norm_text(node)[:50]))
-                else:
-                    res.fail(Finding("BM-ROWS", fi.module, fi.qualname, node, "reshape(%s)%s does not undo the permute/reshape that merged the pixels into the batch (a reshape where a permute is needed): values end up at other pixels / channels / items" % (", ".join(rdims), (".permute%s" % (tuple(sp[1]),)) if sp else "")))
+        seen.add(key)
+        res.fail(f)
     if n < 3:
-        # (8 sites today; de-duplicating them through a helper legitimately lowers the count)
-        raise AnalysisIncomplete("BM-ROWS: %d permute/reshape sites found (< 3)" % n)
+        raise AnalysisIncomplete("BM-ROWS: image code paths of %d functions evaluated (< 3; today: OneByOneConvolution._lu_forward_inverse, the two UMNN coupling hooks, PiecewiseCouplingTransform._coupling_transform)" % n)
     return res
 
 
